@@ -36,8 +36,8 @@ US = ord("_")
 
 
 TECHNIQUE = 'Lean 4 proof: model of format_error_impl over regenerated flag constants = declarative validity specification, for every 128-bit format and feature set; builder/getter/setter lemmas; correspondence on exhaustive per-field streams'
-LEVEL_TEXT = "Complete Lean theorems for every packed format (all 2^128 values) and feature set: formatError = first violated documented constraint, valid iff FormatValid, build_strict panics iff invalid, getters reflect setters; bit layout constants are regenerated from the compiled crate and proved equal to the model's layout. rebuild/build round trip is stated (full Prop) and proved only for flags and byte fields separately. Entry-point behaviour on invalid formats/punctuation is checked by correspondence (all four with_options entry points)."
-LEVEL_NOTE = 'Trusted: Lean kernel; that Model.FormatError mirrors feature_format.rs/not_feature_format.rs (correspondence via the verif_format_error hook on >300k formats); option-string validators are modelled by correspondence only.'
+LEVEL_TEXT = "Complete Lean theorems for every packed format (all 2^128 values) and feature set: formatError = first violated documented constraint, valid iff FormatValid, build_strict panics iff invalid, getters reflect setters; bit layout constants are regenerated from the compiled crate and proved equal to the model's layout. rebuild/build round trips are proved exactly (Props/C18Builder: rebuild (build b) = normalize b; which bits build (rebuild f) keeps, clears, fills). Option validators (parse/write float, integer) are modelled and proved sound and complete w.r.t. the documented constraints (Props/C18Options). Entry-point behaviour on invalid formats/punctuation is checked by correspondence (all four with_options entry points)."
+LEVEL_NOTE = 'Trusted: Lean kernel; that Model.FormatError mirrors feature_format.rs/not_feature_format.rs (correspondence via the verif_format_error hook on >300k formats); option validators: Model.OptionsValid tied to options.rs by correspondence (pf/wf/bs opterr kinds, po/wo component ops).'
 
 
 def feature_sets(tier):
